@@ -243,9 +243,11 @@ func runC12(c *Ctx, _ []string) {
 			try(name, kinds[r.Intn(len(kinds))], n, r.U64())
 		}
 	}
+	// beyond the 4 MiB chunk of FPAQ (context reset at each chunk start on both sides)
+	try("FPAQ", "random", (4<<20)+1, 78)
+	try("FPAQ", "text", (8<<20)+123, 79)
 	if c.Scale > 1 {
-		// beyond the large internal chunk sizes (FPAQ/CM/TPAQ: 4 MiB+)
-		for _, name := range []string{"FPAQ", "HUFFMAN", "ANS0", "ANS1", "RANGE", "NONE"} {
+		for _, name := range []string{"HUFFMAN", "ANS0", "ANS1", "RANGE", "NONE"} {
 			try(name, "text", (4<<20)+12345, 77)
 		}
 	}
@@ -401,6 +403,41 @@ func runC13(c *Ctx, _ []string) {
 				n = r.Range(1, 600)
 			}
 			try(name, fastEntropy[r.Intn(len(fastEntropy))], sh, n, hints[r.Intn(len(hints))], r.U64())
+		}
+	}
+	// boundaries of the run / literal length encodings: a literal run (or a run of one byte) of
+	// exactly L bytes followed by something compressible, L swept around every threshold
+	var sweep []int
+	for k := 3; k <= 17; k++ {
+		for d := -2; d <= 2; d++ {
+			sweep = append(sweep, (1<<uint(k))+d)
+		}
+	}
+	for d := -12; d <= 12; d++ {
+		sweep = append(sweep, 65536+254+d, 254+d+16, 65536+d)
+	}
+	for _, name := range []string{"LZ", "LZX", "LZP", "ROLZ", "ROLZX", "RLT", "ZRLT"} {
+		for _, L := range sweep {
+			if c.Scale == 1 && L < 65000 && r.Intn(3) != 0 {
+				continue
+			}
+			rr := NewRng(uint64(L) * 77)
+			lit := make([]byte, L)
+			for i := range lit {
+				lit[i] = byte(1 + rr.Intn(255))
+			}
+			blockA := append(lit, make([]byte, 8192)...)         // literal run then zeros
+			blockB := append(bytes.Repeat([]byte{7}, L), lit[:min(L, 300)]...) // run then literals
+			for bi, block := range [][]byte{blockA, blockB} {
+				c.Count("evaluations", 1)
+				c.Hist("transform", name)
+				what, applied := transformRoundTrip(name, "NONE", block, "")
+				c.Hist("applied", fmt.Sprintf("%s:%v", name, applied))
+				if what != "" {
+					c.Violation(map[string]any{"what": fmt.Sprintf("%s: %s", name, what), "transform": name,
+						"data": fmt.Sprintf("length-boundary block kind %d with L=%d (seed L*77)", bi, L), "key": "impl:" + name + ": length boundary"})
+				}
+			}
 		}
 	}
 	if c.Scale > 1 {
